@@ -214,7 +214,7 @@ def run(ctx):
                 "fact_map_built_fields_sorted", "fact_writer_has_no_map_range", "fact_conflicted_flag_read_unconditionally",
                 "fact_before_order", "fact_equal_by_ref", "fact_event_fields_persisted", "fact_metadata_fields_persisted",
                 "fact_store_in_memory_state", "fact_cache_touch", "fact_version_keys", "fact_copied_conditions",
-                "fact_modelled_source_unchanged"]
+                "fact_modelled_source_unchanged", "fact_store_wiring"]
     for r in required:
         if not any(t.endswith("Props." + r) for t in thms):
             ctx.oblige("thm-present:" + r, False, "theorem missing or its module does not build")
